@@ -257,4 +257,56 @@ theorem startCache_cap (c : Cache) (args : List Arg) :
     (startCache c args).cap = c.cap ∧ (startCache c args).grown = c.grown := by
   unfold startCache; split <;> simp [Cache.clear]
 
+/-! ### a thread's history: registration and the size cache's capacity are monotone (audit round, for C11) -/
+
+def FOp.isLog : FOp → Bool | .log _ _ => true | .drain => false
+def FOp.wf : FOp → Bool | .log args _ => wfL args | .drain => true
+
+theorem step_cache_cap (f : Frame) (pub : Bool) (pct : Nat) (fe : Frontend) (op : FOp) (hw : op.wf = true)
+    (hc : 0 < fe.cache.cap) : fe.cache.cap ≤ (Frontend.step f pub pct fe op).cache.cap := by
+  cases op with
+  | drain => exact Nat.le_refl _
+  | log args dyn =>
+    have hs := sizeStatement_spec (fun _ => 0) fe.cache args 0 hw
+    have hcap := (pushAll_grown (lensL args) (startCache fe.cache args)).2
+    have hsc := startCache_cap fe.cache args
+    have hcache : (Frontend.step f pub pct fe (.log args dyn)).cache = (startCache fe.cache args).pushAll (lensL args) := by
+      simp only [Frontend.step, logCall, hs]
+    rw [hcache, hcap, hsc.1]
+    rcases startCache_len fe.cache args with h0 | h0
+    · rw [h0]; exact (capAfter_ge _ _ 0 hc (Nat.zero_le _)).1
+    · rw [h0]; simp [capAfter]
+
+theorem run_cache_cap (f : Frame) (pub : Bool) (pct : Nat) : ∀ (ops : List FOp) (fe : Frontend),
+    (∀ op ∈ ops, op.wf = true) → 0 < fe.cache.cap → fe.cache.cap ≤ (Frontend.run f pub pct fe ops).cache.cap
+  | [], fe, _, _ => by simp [Frontend.run]
+  | op :: ops, fe, hw, hc => by
+    have h1 := step_cache_cap f pub pct fe op (hw op (by simp)) hc
+    have h2 := run_cache_cap f pub pct ops (Frontend.step f pub pct fe op) (fun o ho => hw o (by simp [ho])) (by omega)
+    simp only [Frontend.run, List.foldl_cons] at h2 ⊢
+    omega
+
+theorem run_registered_of_log (f : Frame) (pub : Bool) (pct : Nat) : ∀ (ops : List FOp) (fe : Frontend),
+    (fe.registered = true ∨ ops.any FOp.isLog = true) → (Frontend.run f pub pct fe ops).registered = true
+  | ops, fe, .inl h => run_registered f pub pct ops fe h
+  | [], fe, .inr h => by simp at h
+  | op :: ops, fe, .inr h => by
+    simp only [Frontend.run, List.foldl_cons]
+    cases op with
+    | log args dyn =>
+      exact run_registered f pub pct ops _ (by simp [Frontend.step, logCall])
+    | drain =>
+      have h' : ops.any FOp.isLog = true := by simpa [FOp.isLog] using h
+      exact run_registered_of_log f pub pct ops _ (.inr h')
+
+theorem growTo_ge : ∀ (fuel cap n : Nat), n ≤ cap * 2 ^ fuel → n ≤ growTo fuel cap n
+  | 0, cap, n, h => by simpa [growTo] using h
+  | fuel + 1, cap, n, h => by
+    simp only [growTo]
+    split
+    · exact growTo_ge fuel (2 * cap) n (by
+        have e : 2 * cap * 2 ^ fuel = cap * 2 ^ (fuel + 1) := by rw [Nat.pow_succ]; ac_rfl
+        rw [e]; exact h)
+    · omega
+
 end Codec
